@@ -103,7 +103,8 @@ def prepare_case(case):
     r_s = enc.node(rhs)
     c_s = c05.cfg_sexp(case6(case), cfg, enc, rhs)
     lt = oracles.lit_table(c05.scalars_of(lhs, []) + c05.scalars_of(rhs, []))
-    return ["(resolve %s %s %s)" % (c_s, l_s, r_s), "(anchors %s %s %s %s)" % (c_s, lt, l_s, r_s)]
+    return ["(resolve %s %s %s)" % (c_s, l_s, r_s), "(anchors %s %s %s %s)" % (c_s, lt, l_s, r_s),
+            "(c10-guard %s %s)" % (l_s, r_s)]
 
 
 TRIVIAL = "(node-eq (L i1 none false none none) (L i1 none false none none))"
@@ -123,8 +124,83 @@ def impl_only(case):
 
 def requests(case):
     if impl_only(case):
-        return [TRIVIAL, TRIVIAL]
+        return [TRIVIAL, TRIVIAL, TRIVIAL]
     return prepare_case(case)
+
+
+# ---------------------------------------------------------------- the theorems' guards, on the object graph
+def c10_name(x):
+    """SpecC10.c10_name: hasattr(x, 'anchor') and x.anchor.value (None = no name)"""
+    if not hasattr(x, "anchor"):
+        return None
+    try:
+        return x.anchor.value
+    except Exception:  # noqa
+        return None
+
+
+def is_container(x):
+    return isinstance(x, (dict, list, tuple)) or docenc.is_set(x)
+
+
+def g_tidy(x):
+    """SpecC10.an_tidy: no container, hash key or set member carries an anchor name; keys and members are Scalars"""
+    if isinstance(x, dict):
+        return c10_name(x) is None and all(not is_container(k) and c10_name(k) is None and g_tidy(v)
+                                           for k, v in x.items())
+    if isinstance(x, (list, tuple)):
+        return c10_name(x) is None and all(g_tidy(e) for e in x)
+    if docenc.is_set(x):
+        return c10_name(x) is None and all(not is_container(e) and c10_name(e) is None for e in x)
+    return True
+
+
+def g_places(x, acc):
+    """SpecC10.places: hash keys, Scalars that are hash values / array elements, at any depth"""
+    if isinstance(x, dict):
+        for k, v in x.items():
+            acc.append(k)
+            if is_container(v):
+                g_places(v, acc)
+            else:
+                acc.append(v)
+    elif isinstance(x, (list, tuple)):
+        for e in x:
+            if is_container(e):
+                g_places(e, acc)
+            else:
+                acc.append(e)
+    return acc
+
+
+def g_one_node(x):
+    """SpecC10.one_node_per_name: two places of one name are one object"""
+    names = {}
+    for p in g_places(x, []):
+        n = c10_name(p)
+        if n is None:
+            continue
+        if n in names and names[n] is not p:
+            return False
+        names[n] = p
+    return True
+
+
+def g_keys_plain(x):
+    if isinstance(x, dict):
+        return all(c10_name(k) is None and g_keys_plain(v) for k, v in x.items())
+    if isinstance(x, (list, tuple)):
+        return all(g_keys_plain(e) for e in x)
+    return True
+
+
+def guard_line(l, r):
+    """the guards of C10_rename_final / C10_unique_names_final / C10_no_crash_partial evaluated on the real
+    documents; a loaded document IS a heap, so an_heap_ok is true of it by construction (the model
+    evaluates it on the encoded tree: a disagreement would mean the encoder shows one object with two faces)"""
+    b = lambda v: "true" if v else "false"
+    return "(guard %s %s %s %s true %s %s)" % (b(is_container(l) and g_tidy(l)), b(is_container(r) and g_tidy(r)),
+                                              b(g_one_node(l)), b(g_one_node(r)), b(g_keys_plain(l)), b(g_keys_plain(r)))
 
 
 def real_resolve(case):
@@ -147,7 +223,7 @@ def real_merge(case):
 
 def observe(case):
     if impl_only(case):
-        return ["true", "true"]
+        return ["true", "true", "true"]
     out = []
     try:
         l2, r2 = real_resolve(case)
@@ -163,6 +239,7 @@ def observe(case):
         out.append("(ok %s)" % AnEncoder().node(m.data))
     except Exception as e:  # noqa
         out.append(exc_line(e))
+    out.append(guard_line(load(case[0]), load(case[1])))
     return out
 
 
@@ -469,7 +546,43 @@ def anchored_key_collision(case, obs):
     return count_entries(l) + count_entries(r) < before
 
 
+def key_names(x, acc):
+    """anchor names carried by hash KEYS"""
+    if isinstance(x, dict):
+        for k, v in x.items():
+            a = anchor_of(k)
+            if a is not None:
+                acc.add(a)
+            key_names(v, acc)
+    elif isinstance(x, (list, tuple)):
+        for e in x:
+            key_names(e, acc)
+    return acc
+
+
+def container_names(x):
+    return {anchor_of(n) for n in walk_nodes(x, [])
+            if (isinstance(n, (dict, list, tuple)) or docenc.is_set(n)) and anchor_of(n) is not None}
+
+
+def anchored_key_meets_container(case, obs):
+    """F-C10-3: left / right replace an anchored hash KEY by the other document's node of that name; when
+    that node is a Hash / Array / Set, `data.insert(idx, repl_node, data.pop(key))` hashes it: TypeError.
+    right: the key is in the left document; left: in the right document."""
+    policy = str(eff_policy(case)).lower()
+    try:
+        l, r = load(case[0]), load(case[1])
+    except Exception:  # noqa
+        return False
+    if policy == "right":
+        return bool(key_names(l, set()) & container_names(r))
+    if policy == "left":
+        return bool(key_names(r, set()) & container_names(l))
+    return False
+
+
 FINDING_PREDS = {"aoh_default_governs_non_aoh": aoh_default,
+                 "anchored_key_meets_container": anchored_key_meets_container,
                  "anchored_key_collision": anchored_key_collision,
                  "anchored_container_as_array_element": anchored_container_as_array_element}
 
@@ -686,6 +799,13 @@ def corpus_chunks():
         ("{a: &x 1 , b: *x }", "{c: &x 1.0 , d: *x }", {"anchors": "stop"}, None),
         ("{a: &x 1 , b: [*x , [*x ]]}", "{c: &x 2 , d: [*x , [*x ]]}", {"anchors": "left"}, None),
         ("{&x k : 1 , b: *x }", "{&x j : 2 , d: *x }", {"anchors": "left"}, None),
+        # F-C10-3: an anchored key meets an anchored container of the same name (implementation-only stream)
+        ("{&x k : 1 }", "{a: &x [1, 2]}", {"anchors": "right"}, None),
+        ("{a: &x [1, 2]}", "{&x k : 1 }", {"anchors": "left"}, None),
+        ("{&x k : 1 }", "{a: &x {b: 2}}", {"anchors": "right"}, None),
+        ("{&x k : 1 }", "{a: &x [1, 2]}", {"anchors": "left"}, None),
+        ("{&x k : 1 }", "{a: &x [1, 2]}", {"anchors": "rename"}, None),
+        ("{&x k : 1 }", "{a: &x [1, 2]}", {"anchors": "stop"}, None),
     ]
 
 
@@ -709,8 +829,10 @@ def classify(case, obs):
     if o == "true":
         return "impl-only:anchored-container"
     res = "ok" if o.startswith("(ok") else "mergeexc" if o == "(raise mergeexc)" else "other"
-    return "%s:%s:%s" % (str(eff_policy(case)).lower() if str(eff_policy(case)).lower() in POLICIES else "badtext",
-                         rel, res)
+    g = obs[2].strip("()").split(" ") if len(obs) > 2 else []
+    pair_guard = "guard" if len(g) == 8 and all(x == "true" for x in g[1:6]) else "noguard"   # c10_pair_guard
+    return "%s:%s:%s:%s" % (str(eff_policy(case)).lower() if str(eff_policy(case)).lower() in POLICIES else "badtext",
+                            rel, res, pair_guard)
 
 
 def nontrivial(case, obs):
